@@ -114,6 +114,7 @@ Outcome execute_plan(Property &prop, const Plan &plan, bool capture)
 	g_fd.reset_run();
 	g_loc.reset_run();
 	t_lib_active = 0;
+	errno = 0; // hidden input of the caller's thread: a run must not inherit it from the previous run in this process
 	signal(SIGALRM, on_alarm);
 	alarm(30);
 	try
